@@ -78,18 +78,89 @@ func c14Dest(g *simrt.Choices, i int) string {
 	return strings.TrimSpace(addr + " " + strings.Join(opts, " "))
 }
 
-func c14Cmd(g *simrt.Choices, routeKeys *[]string) string {
+// c14CleanDest is a destination spec every option of which is valid, so that commands built from it are accepted and the
+// relay then has to live with the settings (small buffers, short periods, spooling, pickle) under traffic and garbage.
+func c14CleanDest(g *simrt.Choices, i int) string {
+	addr := fmt.Sprintf("10.5.0.%d:2003", 1+i%4)
+	if g.Bool(0.3) {
+		addr += fmt.Sprintf(":i%d", i)
+	}
+	var opts []string
+	pos := []string{"1", "2", "5", "10", "100", "1000", "3", "50"}
+	for _, k := range []string{"flush", "reconn", "connbuf", "iobuf", "spoolbuf", "spoolsyncevery", "spoolsyncperiod", "spoolsleep", "unspoolsleep"} {
+		if g.Bool(0.2) {
+			opts = append(opts, k+"="+pos[g.Pick(len(pos))])
+		}
+	}
+	if g.Bool(0.2) {
+		opts = append(opts, "spoolmaxbytesperfile="+[]string{"100", "1000", "100000"}[g.Pick(3)])
+	}
+	if g.Bool(0.3) {
+		opts = append(opts, "spool="+[]string{"true", "false"}[g.Pick(2)])
+	}
+	if g.Bool(0.3) {
+		opts = append(opts, "pickle="+[]string{"true", "false"}[g.Pick(2)])
+	}
+	if g.Bool(0.2) {
+		opts = append(opts, []string{"prefix=a.", "sub=b", "regex=" + c14Regex[g.Pick(6)], "notRegex=" + c14Regex[g.Pick(6)], "notSub=zz"}[g.Pick(5)])
+	}
+	return strings.TrimSpace(addr + " " + strings.Join(opts, " "))
+}
+
+// c14Good remembers the routes created by well-formed commands (key -> number of destinations) so that later mod/del
+// commands mostly hit something that exists.
+type c14Good struct {
+	keys []string
+	nd   map[string]int
+}
+
+func (c *c14Good) pick(g *simrt.Choices, all []string) string {
+	if len(c.keys) > 0 && g.Bool(0.7) {
+		return c.keys[g.Pick(len(c.keys))]
+	}
+	if len(all) > 0 {
+		return all[g.Pick(len(all))]
+	}
+	return "nokey"
+}
+
+func c14Cmd(g *simrt.Choices, routeKeys *[]string, good *c14Good) string {
+	clean := g.Bool(0.5)
 	switch g.Pick(14) {
 	case 0:
 		return fmt.Sprintf("addBlack %s %s", []string{"prefix", "sub", "regex", "notRegex", "notPrefix", "notSub", "bogus", ""}[g.Pick(8)], []string{"collectd.localhost", c14Regex[g.Pick(len(c14Regex))], ""}[g.Pick(3)])
 	case 1:
 		return fmt.Sprintf("addRewriter %s %s %s", []string{"a", "/a(.)/", "/(/", "", "//"}[g.Pick(5)], []string{"b", "${1}x", "$1", ""}[g.Pick(4)], c14Ints[g.Pick(len(c14Ints))])
 	case 2, 3:
+		if clean {
+			fun := []string{"sum", "avg", "count", "max", "min", "last", "delta", "derive", "stdev", "percentiles"}[g.Pick(10)]
+			match := []string{"regex=" + c14Regex[g.Pick(6)], c14Regex[g.Pick(6)], "prefix=stats. regex=" + c14Regex[g.Pick(6)], "notRegex=" + c14Regex[g.Pick(6)] + " regex=^stats", "sub=requests regex=" + c14Regex[g.Pick(6)]}[g.Pick(5)]
+			tail := []string{"", " cache=true", " cache=false dropRaw=true", " dropRaw=false"}[g.Pick(4)]
+			pos := []string{"1", "2", "5", "10", "60"}
+			return fmt.Sprintf("addAgg %s %s %s %s %s%s", fun, match, []string{"agg.$1", "agg", "agg.${1}.x"}[g.Pick(3)], pos[g.Pick(5)], pos[g.Pick(5)], tail)
+		}
 		fun := []string{"sum", "avg", "count", "max", "min", "last", "delta", "derive", "stdev", "percentiles", "sum", "avg", "bogus", ""}[g.Pick(14)]
 		match := []string{"regex=" + c14Regex[g.Pick(6)], "regex=" + c14Regex[g.Pick(len(c14Regex))], c14Regex[g.Pick(6)], "sub=requests", "prefix=stats. regex=" + c14Regex[g.Pick(6)], "notRegex=" + c14Regex[g.Pick(len(c14Regex))] + " regex=^stats"}[g.Pick(6)]
 		tail := []string{"", "", " cache=true", " cache=false dropRaw=true", " dropRaw=maybe", " bogus"}[g.Pick(6)]
 		return fmt.Sprintf("addAgg %s %s %s %s %s%s", fun, match, []string{"agg.$1", "agg", "$9", "agg.$1", ""}[g.Pick(5)], c14Int(g), c14Int(g), tail)
 	case 4, 5, 6:
+		if clean {
+			typ := []string{"sendAllMatch", "sendFirstMatch", "consistentHashing"}[g.Pick(3)]
+			key := fmt.Sprintf("rt%d", len(*routeKeys))
+			*routeKeys = append(*routeKeys, key)
+			opts := []string{"", "", " prefix=a.", " regex=" + c14Regex[g.Pick(6)], " sub=b notSub=c"}[g.Pick(5)]
+			nd := 1 + g.Intn(3)
+			if typ == "consistentHashing" && nd < 2 {
+				nd = 2
+			}
+			var dests []string
+			for i := 0; i < nd; i++ {
+				dests = append(dests, c14CleanDest(g, len(*routeKeys)*4+i))
+			}
+			good.keys = append(good.keys, key)
+			good.nd[key] = nd
+			return fmt.Sprintf("addRoute %s %s%s  %s", typ, key, opts, strings.Join(dests, "  "))
+		}
 		typ := []string{"sendAllMatch", "sendFirstMatch", "consistentHashing", "consistentHashing", "sendAllMatch", "bogusType"}[g.Pick(6)]
 		key := fmt.Sprintf("rt%d", len(*routeKeys))
 		*routeKeys = append(*routeKeys, key)
@@ -125,18 +196,25 @@ func c14Cmd(g *simrt.Choices, routeKeys *[]string) string {
 		addr := []string{"http://grafana.sim/metrics", "http://grafana.sim/metrics", "http://grafana.sim/graphite/metrics/", "grafana.sim/metrics", "http://grafana.sim/other", ""}[g.Pick(6)]
 		return fmt.Sprintf("addRoute grafanaNet %s  %s apikey @SCHEMAS@ @AGG@ %s", key, addr, strings.Join(opts, " "))
 	case 8:
-		k := "nokey"
-		if len(*routeKeys) > 0 {
-			k = (*routeKeys)[g.Pick(len(*routeKeys))]
+		k := good.pick(g, *routeKeys)
+		if clean {
+			return fmt.Sprintf("modRoute %s %s", k, []string{"prefix=a.", "regex=" + c14Regex[g.Pick(6)], "sub=b", "notPrefix=zz", "prefix=", "notRegex=^zz sub=."}[g.Pick(6)])
 		}
 		return fmt.Sprintf("modRoute %s %s", k, []string{"prefix=a.", "regex=" + c14Regex[g.Pick(len(c14Regex))], "sub=", "bogus=1", ""}[g.Pick(5)])
 	case 9:
-		k := "nokey"
-		if len(*routeKeys) > 0 {
-			k = (*routeKeys)[g.Pick(len(*routeKeys))]
+		k := good.pick(g, *routeKeys)
+		if clean {
+			idx := 0
+			if n := good.nd[k]; n > 0 {
+				idx = g.Intn(n)
+			}
+			return fmt.Sprintf("modDest %s %d %s", k, idx, []string{"prefix=a.", "addr=10.5.0.3:2003", "addr=10.5.0.9:2003", "regex=^a notPrefix=b", "sub=b", "notSub=zz regex=.*", "prefix="}[g.Pick(7)])
 		}
 		return fmt.Sprintf("modDest %s %s %s", k, []string{"0", "1", "0", "2", "7", "x"}[g.Pick(6)], []string{"prefix=a.", "addr=10.5.0.3:2003", "addr=10.5.0.9:2003", "addr=bad", "regex=(", "regex=^a notPrefix=b", "pickle=true", ""}[g.Pick(8)])
 	case 10:
+		if g.Bool(0.5) {
+			return "delRoute " + good.pick(g, *routeKeys)
+		}
 		k := "nokey"
 		if len(*routeKeys) > 0 {
 			k = (*routeKeys)[g.Pick(len(*routeKeys))]
@@ -228,8 +306,20 @@ func scenC14(x *Exec) {
 		p.TOML = c14TOML(g, sf, af)
 	}
 	var keys []string
+	good := &c14Good{nd: map[string]int{}}
+	if g.Bool(0.4) { // a route that certainly exists, so that the mod/del commands below have something to work on
+		key := "rt0"
+		keys = append(keys, key)
+		nd := 2 + g.Intn(2)
+		var ds []string
+		for i := 0; i < nd; i++ {
+			ds = append(ds, c14CleanDest(g, i))
+		}
+		good.keys, good.nd[key] = append(good.keys, key), nd
+		p.Cmds = append(p.Cmds, fmt.Sprintf("addRoute %s %s  %s", []string{"sendAllMatch", "sendFirstMatch", "consistentHashing"}[g.Pick(3)], key, strings.Join(ds, "  ")))
+	}
 	for i, n := 0, g.Intn(7); i < n; i++ {
-		c := c14Cmd(g, &keys)
+		c := c14Cmd(g, &keys, good)
 		c = strings.Replace(strings.Replace(c, "@SCHEMAS@", sf, 1), "@AGG@", af, 1)
 		p.Cmds = append(p.Cmds, c)
 	}
